@@ -269,8 +269,12 @@ class FIXTester:
         clord_id = cxl_req[FTag.ClOrdID]
         orig_clord_id = cxl_req[FTag.OrigClOrdID]
 
+        order = self.registered_orders.get(
+            clord_id, self.registered_orders.get(orig_clord_id)
+        )
         m = FIXMessage(FMsg.ORDERCANCELREJECT)
-        m[37] = 0
+        # OrderID as reported in execution reports of the same order (if known)
+        m[37] = order.order_id if order is not None and order.order_id else 0
         m[11] = clord_id
         m[41] = orig_clord_id
         m[39] = ord_status
